@@ -9,6 +9,8 @@
 
 #include <eventpp/callbacklist.h>
 #include <eventpp/eventdispatcher.h>
+#include <eventpp/hetercallbacklist.h>
+#include <eventpp/hetereventdispatcher.h>
 
 #include <thread>
 
@@ -67,7 +69,9 @@ struct CLTarget
 	bool owns(int, const Handle & h) { return list.ownsHandle(h); }
 	bool empty(int) { return list.empty(); }
 	void invoke(int, int v) { list(v); }
-	template <typename F> void forEach(int, F f) { list.forEach(f); }
+	enum { hasQueries = 1 };
+	struct EnumFn { std::vector<int> * v; void operator() (const typename L::Callback & cb) const { v->push_back(cbIdOf(cb)); perturb("callback.body"); } };
+	void enumerate(int, std::vector<int> & out) { EnumFn f; f.v = &out; list.forEach(f); }
 	L * peek(int) { return &list; }
 };
 template <typename Policies>
@@ -86,8 +90,57 @@ struct EDTarget
 	bool owns(int k, const Handle & h) { return d.ownsHandle(k, h); }
 	bool empty(int k) { return ! d.hasAnyListener(k); }
 	void invoke(int k, int v) { d.dispatch(k, v); }
-	template <typename F> void forEach(int k, F f) { d.forEach(k, f); }
+	enum { hasQueries = 1 };
+	struct EnumFn { std::vector<int> * v; void operator() (const typename L::Callback & cb) const { v->push_back(cbIdOf(cb)); perturb("callback.body"); } };
+	void enumerate(int k, std::vector<int> & out) { EnumFn f; f.v = &out; d.forEach(k, f); }
 	L * peek(int k) { return Access::findList(d, k); }
+};
+
+// ---- heterogeneous variants: "key" k selects the prototype (0: void(int), 1: void(int,int)); the per-prototype list of a
+// HeterCallbackList is created lazily at its first use, which may be concurrent
+struct HL1 { TCallback cb; explicit HL1(const TCallback & c) : cb(c) {} void operator() (int a) const { cb(a); } };
+struct HL2 { TCallback cb; explicit HL2(const TCallback & c) : cb(c) {} void operator() (int a, int) const { cb(a); } };
+typedef eventpp::HeterTuple<void(int), void(int, int)> HProtos;
+struct HEnum1 { std::vector<int> * v; void operator() (const std::function<void(int)> & cb) const { const HL1 * l = cb.target<HL1>(); v->push_back(l ? l->cb.id() : -1); perturb("callback.body"); } };
+struct HEnum2 { std::vector<int> * v; void operator() (const std::function<void(int, int)> & cb) const { const HL2 * l = cb.target<HL2>(); v->push_back(l ? l->cb.id() : -1); perturb("callback.body"); } };
+template <typename Policies>
+struct HCLTarget
+{
+	typedef eventpp::HeterCallbackList<HProtos, Policies> H;
+	typedef eventpp::CallbackList<void(int), Policies> L; // only for the signature of peek(): no structural walk for the heterogeneous classes
+	typedef typename H::Handle Handle;
+	H list;
+	enum { nkeys = 2, hasQueries = 0 };
+	static const char * name() { return "HeterCallbackList"; }
+	Handle append(int k, const TCallback & cb) { return k == 0 ? list.append(HL1(cb)) : list.append(HL2(cb)); }
+	Handle prepend(int k, const TCallback & cb) { return k == 0 ? list.prepend(HL1(cb)) : list.prepend(HL2(cb)); }
+	Handle insert(int k, const TCallback & cb, const Handle & h) { return k == 0 ? list.insert(HL1(cb), h) : list.insert(HL2(cb), h); }
+	bool remove(int, const Handle & h) { return list.remove(h); }
+	bool owns(int, const Handle &) { return false; }
+	bool empty(int) { return false; }
+	void invoke(int k, int v) { if(k == 0) list(v); else list(v, 0); }
+	void enumerate(int k, std::vector<int> & out) { if(k == 0) { HEnum1 f; f.v = &out; list.template forEach<void(int)>(f); } else { HEnum2 f; f.v = &out; list.template forEach<void(int, int)>(f); } }
+	L * peek(int) { return nullptr; }
+};
+template <typename Policies>
+struct HEDTarget
+{
+	typedef eventpp::HeterEventDispatcher<int, HProtos, Policies> H;
+	typedef eventpp::CallbackList<void(int), Policies> L;
+	typedef typename H::Handle Handle;
+	H d;
+	enum { nkeys = 2, hasQueries = 0 };
+	static const char * name() { return "HeterEventDispatcher"; }
+	// both keys are listeners of ONE event (7) with different prototypes: they share the event's HeterCallbackList and its lazily created slots
+	Handle append(int k, const TCallback & cb) { return k == 0 ? d.appendListener(7, HL1(cb)) : d.appendListener(7, HL2(cb)); }
+	Handle prepend(int k, const TCallback & cb) { return k == 0 ? d.prependListener(7, HL1(cb)) : d.prependListener(7, HL2(cb)); }
+	Handle insert(int k, const TCallback & cb, const Handle & h) { return k == 0 ? d.insertListener(7, HL1(cb), h) : d.insertListener(7, HL2(cb), h); }
+	bool remove(int, const Handle & h) { return d.removeListener(7, h); }
+	bool owns(int, const Handle &) { return false; }
+	bool empty(int) { return false; }
+	void invoke(int k, int v) { if(k == 0) d.dispatch(7, v); else d.dispatch(7, v, 0); }
+	void enumerate(int k, std::vector<int> & out) { if(k == 0) { HEnum1 f; f.v = &out; d.template forEach<void(int)>(7, f); } else { HEnum2 f; f.v = &out; d.template forEach<void(int, int)>(7, f); } }
+	L * peek(int) { return nullptr; }
 };
 
 template <typename Target>
@@ -117,8 +170,6 @@ struct Runner
 		}
 		return -1;
 	}
-
-	struct EnumFn { std::vector<int> * v; void operator() (const typename Target::L::Callback & cb) const { v->push_back(cbIdOf(cb)); perturb("callback.body"); } };
 
 	void worker(int tid) {
 		threadBegin(tid, tid, caseSeed);
@@ -154,13 +205,13 @@ struct Runner
 					o.tc = tick(); o.result = t.remove(key, h) ? 1 : 0; o.tr = tick();
 					log.ops[key].push_back(o);
 				}
-				else if(c < 70) {
+				else if(c < 70 && Target::hasQueries) {
 					o.kind = LO_OWNS; o.uid = pickPublished(rng, key, tid);
 					const Handle h = o.uid >= 0 ? handles[o.uid] : Handle();
 					o.tc = tick(); o.result = t.owns(key, h) ? 1 : 0; o.tr = tick();
 					log.ops[key].push_back(o);
 				}
-				else if(c < 76) {
+				else if(c < 76 && Target::hasQueries) {
 					o.kind = LO_EMPTY;
 					o.tc = tick(); o.result = t.empty(key) ? 1 : 0; o.tr = tick();
 					log.ops[key].push_back(o);
@@ -172,7 +223,7 @@ struct Runner
 					log.cur = &T;
 					T.tc = tick();
 					if(T.isInvoke) t.invoke(key, 4242);
-					else { EnumFn f; f.v = &T.visited; t.forEach(key, f); }
+					else t.enumerate(key, T.visited);
 					T.tr = tick();
 					log.cur = nullptr;
 				}
@@ -219,7 +270,7 @@ static void runScenario(uint64_t caseNo, Rng & rng, const char * polName)
 		for(int t = 1; t <= R->nthreads; ++t) { R->opsPerThread[t] = 4 + (int)rng.below(7); budgetOps += R->opsPerThread[t]; }
 		// pre-populated content (part of the model's initial state)
 		std::vector<int> initial[NKEYS];
-		const int npre = 1 + (int)rng.below(6);
+		const int npre = (! Target::hasQueries && rng.chance(1, 2)) ? 0 : 1 + (int)rng.below(6); // heterogeneous: half of the histories start with no per-prototype list created yet
 		sched().mode = 0;
 		for(int i = 0; i < npre; ++i) {
 			const int key = (int)rng.below((uint32_t)Target::nkeys);
@@ -268,8 +319,7 @@ static void runScenario(uint64_t caseNo, Rng & rng, const char * polName)
 		long finalTotal = 0;
 		for(int key = 0; key < Target::nkeys && ! caseHasViolation(); ++key) {
 			std::vector<int> fin;
-			typename Runner<Target>::EnumFn f; f.v = &fin;
-			R->t.forEach(key, f);
+			R->t.enumerate(key, fin);
 			finalTotal += (long)fin.size();
 			typename Target::L * l = R->t.peek(key);
 			if(l) {
@@ -379,13 +429,15 @@ static void runScenario(uint64_t caseNo, Rng & rng, const char * polName)
 static void runCase(uint64_t caseNo, Rng & rng)
 {
 	long long only = ctx().optInt("cfg", -1);
-	const int cfg = only >= 0 ? (int)only : (int)(caseNo % 5);
+	const int cfg = only >= 0 ? (int)only : (int)(caseNo % 7);
 	switch(cfg) {
 	case 0: runScenario<CLTarget<PolMon> >(caseNo, rng, "std::mutex"); break;
 	case 1: runScenario<CLTarget<PolMonSpin> >(caseNo, rng, "SpinLock"); break;
 	case 2: runScenario<EDTarget<PolMon> >(caseNo, rng, "std::mutex unordered_map"); break;
 	case 3: runScenario<EDTarget<PolMonMap> >(caseNo, rng, "std::mutex std::map"); break;
-	default: runScenario<EDTarget<PolMonSpin> >(caseNo, rng, "SpinLock unordered_map"); break;
+	case 4: runScenario<EDTarget<PolMonSpin> >(caseNo, rng, "SpinLock unordered_map"); break;
+	case 5: runScenario<HCLTarget<PolMon> >(caseNo, rng, "std::mutex"); break;
+	default: runScenario<HEDTarget<PolMon> >(caseNo, rng, "std::mutex"); break;
 	}
 }
 
